@@ -260,7 +260,7 @@ def check(ctx, rep):
                     rep.ob("R-ADMIT", "_block_until_ready: returns when queue length < limit", ok, "the admission test of blocking submit must compare len(queue) with the limit, found %s" % fmt(lhs), where_of(bu, b.node))
 
     # ---------------------------------------------------------------- wake-ups
-    wake.check_loops(ctx, rep, [li])
+    wake.check_loops(ctx, rep, [li], components="state")
     wake.check_producers(ctx, rep, [li])
     wake.second_waiters(ctx, rep, [li])
     wake.check_producers(ctx, rep, [li], minus_for="blocked submitters", rule="R-WAKE-Q")
